@@ -310,6 +310,27 @@ def lifeAccepted (fuel : Nat) : M Unit := do
   let fd ← open_ 0
   connInit fuel { fd := fd, tag := 0 }
 
+/-- What the application does with the `net.Conn` that `listener.Accept` returns (a bare `*netFD`, no connection
+object around it): it calls `Close` directly, any number of times, from any goroutines – e.g. the reader and the
+writer goroutine both after an I/O error.  The calls serialise on the `closed` counter (one atomic
+read-modify-write decides, tied to the source by `Netpoll.Tie.Fd.netFD_close_decided_by_one_rmw`), so every real
+interleaving equals one of the sequential orders generated here.  The `net.Conn` counts as closed when `Close` has
+been called at least once (`ran`). -/
+def userCloseLoop : Nat → Bool → NetFD → M Unit
+  | 0, ran, c => if ran then pure () else do let _ ← c.close; pure ()
+  | fuel+1, ran, c => do
+    if !(← ask .conn_more) then (if ran then pure () else do let _ ← c.close; pure ())
+    else do
+      let c ← c.close
+      userCloseLoop fuel true c
+
+/-- net_listener.go `listener.Accept` (syscall.Accept, `nfd := &netFD{}; nfd.fd = fd`) used as a plain
+`net.Listener`: the `*netFD` goes to the application as a `net.Conn` -/
+def lifeAcceptConn (fuel : Nat) : M Unit := do
+  if !(← ask .accept_ok) then return ()
+  let fd ← open_ 0
+  userCloseLoop fuel false { fd := fd, tag := 0 }
+
 /-- net_dialer.go `NewFDConnection(fd)`: the caller's descriptor is adopted -/
 def lifeFDConn (fd : Fd) (fuel : Nat) : M Unit := do
   adopt_ fd 0
@@ -468,6 +489,7 @@ inductive Kind
   | dialTCP (fuel : Nat)
   | dialUnix (fuel : Nat)
   | accepted (fuel : Nat)
+  | acceptConn (fuel : Nat)
   | fdConn (fd : Fd) (fuel : Nat)
   | createListener (fuel : Nat)
   | convertListener (lfd : Fd) (fuel : Nat)
@@ -478,6 +500,7 @@ def Kind.prog : Kind → M Unit
   | .dialTCP f => lifeDialTCP f
   | .dialUnix f => lifeDialUnix f
   | .accepted f => lifeAccepted f
+  | .acceptConn f => lifeAcceptConn f
   | .fdConn fd f => lifeFDConn fd f
   | .createListener f => lifeCreateListener f
   | .convertListener lfd f => lifeConvertListener lfd f
@@ -687,7 +710,7 @@ def Site.all : List Site :=
 
 /-- one representative of every kind of lifecycle (fuel ≤ 1: at most one optional extra action) -/
 def Kind.representatives : List Kind :=
-  [.dialTCP 0, .dialUnix 0, .accepted 1, .fdConn 100 0, .createListener 1, .convertListener 100 1, .poller 1]
+  [.dialTCP 0, .dialUnix 0, .accepted 1, .acceptConn 1, .fdConn 100 0, .createListener 1, .convertListener 100 1, .poller 1]
 
 /-- the close sites reached by the lifecycles of the (fixed) code, in source order -/
 def coveredSites : List Site :=
